@@ -2,7 +2,7 @@
     Only statements closed by [exact]; proofs in Resolve/SortProofs.v and Resolve/VirtualProofs.v. *)
 From Coq Require Import String.
 From Coq Require Import List Ascii ZArith Bool Lia Sorting.Sorted Sorting.Permutation.
-From CGV Require Hydro.Squash.
+From CGV Require Hydro.Squash Compose.GraphAdj Compose.RelabelEdges.
 From CGV Require Import Base.PyBase Base.PyVal Base.NxGraph Resolve.Bonding Resolve.GraphOps Resolve.Pipeline
      Resolve.MapDefs Resolve.Witness Resolve.SortProofs Resolve.VirtualProofs Resolve.SortGraphProofs Resolve.DriversInst Resolve.NameProofs Resolve.NameStep Resolve.PipelineFull.
 From CGV Require Import Hydro.SquashDefs.
@@ -125,6 +125,15 @@ Theorem C12_annotate_groups_any : forall meta mol fgs, annotate_fragments meta m
   (forall g, In g (fraglist_of meta fgs) -> NoDup (snd g)) /\
   shared_ok (fun k => node_get mol k (S "fragid")) [] (fraglist_of meta fgs).
 Proof. exact annotate_groups_any. Qed.
+(** edge attribute VALUES (proved by the Compose component, Compose/RelabelEdges.v, for arbitrary well-formed graphs): without
+    duplicate adjacency entries / edge-dict keys and for an attribute that reads the same in both directions, the edge between
+    the new keys of a and b carries what the edge between a and b carried *)
+Theorem C12_sort_edge_get : forall g h key, wf_graph g -> GraphAdj.adj_nodup g -> GraphAdj.edge_nodup g ->
+  map fst (get_node_attributes g (S "fragid")) = node_keys g -> sort_nodes_by_attr g = Ok h ->
+  (forall a b, edge_get g a b key = edge_get g b a key) ->
+  forall m, sort_mapping g = Ok m -> forall a b, In a (node_keys g) -> In b (node_keys g) ->
+    edge_get h (map_get m a) (map_get m b) key = edge_get g a b key.
+Proof. exact RelabelEdges.sort_edge_get. Qed.
 Theorem C12_sorted_keys_distinct : forall g h, sort_nodes_by_attr g = Ok h -> NoDup (node_keys h).
 Proof. exact sort_nodup. Qed.
 Theorem C12_step_names_unique_any : forall legacy fd prev car fo,
@@ -263,6 +272,7 @@ Print Assumptions C12_annotate_groups.
 Print Assumptions C12_step_names_unique.
 Print Assumptions C12_annotate_groups_any.
 Print Assumptions C12_sorted_keys_distinct.
+Print Assumptions C12_sort_edge_get.
 Print Assumptions C12_step_names_unique_any.
 Print Assumptions C12_sort_keys.
 Print Assumptions C12_sort_sorted.
